@@ -616,6 +616,19 @@ def replay(ctx, rep):
         if not same_outcome(a, b):
             if a[0] == b[0] == "ok":
                 print(first_diff_line(a[1], b[1]))
+            key = dict(rep.get("key") or {})
+            if key.get("kind") == "loop-order-default" and "model_of_code_default" in r:
+                # re-derive the part of the key that depends on the tree: does the code still deviate exactly as modelled?
+                i = int(r["label"].split(":")[1].split("(")[0])
+                obj = inspect_yaml(r["yaml_omitted"], len(r.get("einsums", [])) or i + 1)
+                loop = obj["einsums"][i].get("loop") if "exc" not in obj else None
+                key["code_matches_model"] = (loop == r["model_of_code_default"])
+                key["model_predicts_difference"] = r["model_of_code_default"] != r["canonical_default"]
+                print("omitted loop order now:", loop, " model of the pinned code:", r["model_of_code_default"], " canonical:", r["canonical_default"])
+            k = ctx.match_known(key)
+            if k is not None:
+                print("KNOWN-FINDING: property=C19 %s [%s]" % (k["id"], k["what"][:200]))
+                return 0
             print("VIOLATION property=C19 replay=%s" % rep.get("path", "<given file>"))
             return 1
         return 0
